@@ -784,7 +784,130 @@ func checkContainerVariables(c *core.Ctx, pkg *packages.Package) {
 			})
 			return true
 		})
+		if !ok {
+			// matrices seen through a view: n, m := X.Dims(); for i < n { for j < m { X.AT(i,j).SetVariable(i*m + j, n*m, order) } }
+			if variablesRowMajorForm(info, fd, orderPar) {
+				ok = true
+			}
+		}
 		c.Check(ok, "C01.R4", cons, "element k seeded as variable k of Dim", fd.Pos(), msg)
 	})
 	c.Analysed["variables_methods"] = n
+}
+
+// variablesRowMajorForm recognises the seeding of a matrix through its element accessor: with n, m := X.Dims(), two
+// nested counted loops i < n, j < m from 0, and X.AT(i, j).SetVariable(i*m + j, n*m, order). The numbering i*m + j is a
+// bijection of the index pairs onto 0 .. n*m-1, so every element is seeded as its own variable of n*m.
+func variablesRowMajorForm(info *types.Info, fd *ast.FuncDecl, orderPar types.Object) bool {
+	var nObj, mObj types.Object
+	ast.Inspect(fd.Body, func(x ast.Node) bool {
+		as, ok := x.(*ast.AssignStmt)
+		if !ok || len(as.Lhs) != 2 || len(as.Rhs) != 1 {
+			return true
+		}
+		if ce, ok := ast.Unparen(as.Rhs[0]).(*ast.CallExpr); ok && calleeName(ce) == "Dims" && len(ce.Args) == 0 {
+			if a, ok := as.Lhs[0].(*ast.Ident); ok {
+				nObj = info.Defs[a]
+			}
+			if b, ok := as.Lhs[1].(*ast.Ident); ok {
+				mObj = info.Defs[b]
+			}
+		}
+		return true
+	})
+	if nObj == nil || mObj == nil {
+		return false
+	}
+	loopVar := func(fs *ast.ForStmt, bound types.Object) types.Object {
+		init, ok := fs.Init.(*ast.AssignStmt)
+		if !ok || len(init.Lhs) != 1 || len(init.Rhs) != 1 {
+			return nil
+		}
+		if tv, ok := info.Types[init.Rhs[0]]; !ok || tv.Value == nil || tv.Value.ExactString() != "0" {
+			return nil
+		}
+		id, ok := init.Lhs[0].(*ast.Ident)
+		if !ok {
+			return nil
+		}
+		v := info.Defs[id]
+		be, ok := ast.Unparen(fs.Cond).(*ast.BinaryExpr)
+		if !ok || be.Op != token.LSS {
+			return nil
+		}
+		l, ok1 := ast.Unparen(be.X).(*ast.Ident)
+		r, ok2 := ast.Unparen(be.Y).(*ast.Ident)
+		if !ok1 || !ok2 || info.Uses[l] != v || info.Uses[r] != bound {
+			return nil
+		}
+		if inc, ok := fs.Post.(*ast.IncDecStmt); !ok || inc.Tok != token.INC {
+			return nil
+		}
+		return v
+	}
+	good := false
+	ast.Inspect(fd.Body, func(x ast.Node) bool {
+		outer, ok := x.(*ast.ForStmt)
+		if !ok {
+			return true
+		}
+		iv := loopVar(outer, nObj)
+		if iv == nil || len(outer.Body.List) != 1 {
+			return true
+		}
+		inner, ok := outer.Body.List[0].(*ast.ForStmt)
+		if !ok {
+			return true
+		}
+		jv := loopVar(inner, mObj)
+		if jv == nil {
+			return true
+		}
+		ast.Inspect(inner.Body, func(y ast.Node) bool {
+			ce, ok := y.(*ast.CallExpr)
+			if !ok || calleeName(ce) != "SetVariable" || len(ce.Args) != 3 {
+				return true
+			}
+			// receiver: X.AT(i, j) / X.At(i, j)
+			sel, ok := ast.Unparen(ce.Fun).(*ast.SelectorExpr)
+			if !ok {
+				return true
+			}
+			at, ok := ast.Unparen(sel.X).(*ast.CallExpr)
+			if !ok || len(at.Args) != 2 || !strings.EqualFold(calleeName(at), "at") {
+				return true
+			}
+			isVar := func(e ast.Expr, o types.Object) bool {
+				id, ok := ast.Unparen(e).(*ast.Ident)
+				return ok && info.Uses[id] == o
+			}
+			if !isVar(at.Args[0], iv) || !isVar(at.Args[1], jv) {
+				return true
+			}
+			// index: i*m + j
+			sum, ok := ast.Unparen(ce.Args[0]).(*ast.BinaryExpr)
+			if !ok || sum.Op != token.ADD {
+				return true
+			}
+			prod, ok := ast.Unparen(sum.X).(*ast.BinaryExpr)
+			if !ok || prod.Op != token.MUL || !isVar(sum.Y, jv) {
+				return true
+			}
+			if !(isVar(prod.X, iv) && isVar(prod.Y, mObj) || isVar(prod.X, mObj) && isVar(prod.Y, iv)) {
+				return true
+			}
+			// total: n*m
+			tot, ok := ast.Unparen(ce.Args[1]).(*ast.BinaryExpr)
+			if !ok || tot.Op != token.MUL || !(isVar(tot.X, nObj) && isVar(tot.Y, mObj) || isVar(tot.X, mObj) && isVar(tot.Y, nObj)) {
+				return true
+			}
+			if !isVar(ce.Args[2], orderPar) {
+				return true
+			}
+			good = true
+			return true
+		})
+		return true
+	})
+	return good
 }
